@@ -28,35 +28,7 @@ func runC09(p *Prog, r *Report, tier string) {
 	prefixSites(p, r, "R-ERR.prefix")
 	lengthAccounting(p, r, "R-ERR.length")
 	g := p.CallGraph()
-	// writers: functions that invoke Write on connToCollector
-	var writers []*ssa.Function
-	var writeCalls []ssa.Instruction
-	for _, f := range p.RepoFns {
-		if !keyInPkg(fnKey(f), "pkg/exporter") {
-			continue
-		}
-		eachInstr(f, func(in ssa.Instruction) {
-			c := callOf(in)
-			if c == nil || !c.IsInvoke() || c.Method.Name() != "Write" {
-				return
-			}
-			if tn, fn, _, ok := loadedField(c.Value); ok && tn+"."+fn == "pkg/exporter.ExportingProcess.connToCollector" {
-				writeCalls = append(writeCalls, in)
-				found := false
-				for _, w := range writers {
-					if w == f {
-						found = true
-					}
-				}
-				if !found {
-					writers = append(writers, f)
-				}
-			}
-		})
-	}
-	r.Check(len(writers) == 2 && len(writeCalls) == 2, "R-OWNER.write", "pkg/exporter: writers of connToCollector", "pkg/exporter/process.go",
-		fmt.Sprintf("%d write call sites in %d functions (the IPFIX and the JSON send)", len(writeCalls), len(writers)),
-		fmt.Sprintf("expected exactly the IPFIX and JSON send sites, found %d write calls in %d functions: an additional writer can emit bytes that bypass the checks", len(writeCalls), len(writers)), true)
+	writers, writeCalls := checkConnWriters(p, r, "R-OWNER.write", "an additional writer can emit bytes that bypass the checks")
 
 	// a failed Write is never reported as success: in a writer, a return with a nil error is reached only where the error
 	// result of the Write itself is known to be nil (not a variable that some path reset to nil). "The template was sent"
@@ -575,4 +547,39 @@ func checkEncoderCopies(p *Prog, r *Report, enc *ssa.Function) {
 	if n < 4 {
 		r.Undecided("R-ERR.encoder-copy", "anchor: raw copies in the encoder", p.pos(enc.Pos()), fmt.Sprintf("only %d found", n))
 	}
+}
+
+// checkConnWriters: exactly the IPFIX and the JSON send sites call Write on ExportingProcess.connToCollector.
+func checkConnWriters(p *Prog, r *Report, rule, consequence string) ([]*ssa.Function, []ssa.Instruction) {
+	// writers: functions that invoke Write on connToCollector
+	var writers []*ssa.Function
+	var writeCalls []ssa.Instruction
+	for _, f := range p.RepoFns {
+		if !keyInPkg(fnKey(f), "pkg/exporter") {
+			continue
+		}
+		eachInstr(f, func(in ssa.Instruction) {
+			c := callOf(in)
+			if c == nil || !c.IsInvoke() || c.Method.Name() != "Write" {
+				return
+			}
+			if tn, fn, _, ok := loadedField(c.Value); ok && tn+"."+fn == "pkg/exporter.ExportingProcess.connToCollector" {
+				writeCalls = append(writeCalls, in)
+				found := false
+				for _, w := range writers {
+					if w == f {
+						found = true
+					}
+				}
+				if !found {
+					writers = append(writers, f)
+				}
+			}
+		})
+	}
+	r.Check(len(writers) == 2 && len(writeCalls) == 2, rule, "pkg/exporter: writers of connToCollector", "pkg/exporter/process.go",
+		fmt.Sprintf("%d write call sites in %d functions (the IPFIX and the JSON send)", len(writeCalls), len(writers)),
+		fmt.Sprintf("expected exactly the IPFIX and JSON send sites, found %d write calls in %d functions: %s", len(writeCalls), len(writers), consequence), true)
+
+	return writers, writeCalls
 }
